@@ -20,7 +20,7 @@ RULE_TEXT = ('strict-ranking profiles (G1-G7, G9, G10; withdrawn candidates, mpl
 ASSUMPTIONS = ['trusted base: the transcription of six procedures in vf/models/specs.py (about 100 lines each) and the adopted readings documented there',
                'QPQ: a count in which two hopeful quotients differ by less than twice the guarded tolerance is not evaluated']
 MIN_COUNTERS = {'histories_compared': 300, 'steps_compared': 3000, 'wigm_p4_pairs': 20}
-WEIGHTS = dict(G1=3, G2=3, G3=2, G4=3, G5=1, G6=2, G7=2, G9=1, G10=3)
+WEIGHTS = dict(G1=3, G2=3, G3=2, G4=3, G4b=1, G5=1, G6=2, G7=2, G9=1, G10=3)
 ANCHOR_FILES = ['droop/rules/wigm_prf.py', 'droop/rules/meek_prf.py', 'droop/rules/scotland.py', 'droop/rules/mpls.py', 'droop/rules/cfer.py',
                 'droop/rules/qpq.py', 'droop/rules/wigm.py']
 
